@@ -8,7 +8,7 @@ From AV Require Import Base.Bytes Base.Outcome Hash.HashModel Tree.Heap Tree.Ops
   Tree.Index Tree.IndexProofsBase Tree.IndexProofsAssoc Tree.IndexProofsFrame Tree.IndexProofsAttach
   Tree.IndexProofsTree Tree.IndexProofsCreate Tree.IndexProofsNamed Tree.Refs Tree.RefsProofsBase Tree.RefsProofs
   Tree.Follow Tree.FollowProofsPath Tree.FollowProofsTree Tree.IndexProofsReg Tree.IndexProofsMoveOp
-  Tree.CopyProofsDefs Tree.CopyProofsDeep Tree.CopyProofsCreate Tree.CopyProofsFK.
+  Tree.CopyProofsDefs Tree.CopyProofsDeep Tree.CopyProofsCreate Tree.CopyProofsFK Tree.CopyProofsTop Tree.Observe Tree.FailProofsCopy.
 Open Scope string_scope.
 Open Scope list_scope.
 Open Scope N_scope.
@@ -690,6 +690,71 @@ Proof.
   - eapply (copy_inv05 w w' w1 w3 self c n cn0 (N.to_nat pos) m x path L R ren v other); eauto.
     + apply orb_true_iff in HLc as [Hl|Hl]; [left; exact Hl|right]. destruct L; [reflexivity|discriminate].
     + intros Hp. destruct (Hfront Hp) as (H1 & H2). split; [exact H1|]. intros Hnm. rewrite Hcn0_name. exact (H2 Hnm).
+Qed.
+
+(* a failed copy that allocated nothing *)
+Lemma copy_failed_same w w' :
+  TreeFacts w -> Inv04 w -> Inv05 T w -> obs_eq_upto_garbage w w' -> Closed w' -> w_next w' = w_next w ->
+  Inv04 w' /\ Inv05 T w'.
+Proof.
+  intros HF HI HI5 (_ & Hold & _ & Hm) (Hal & _) Hnx.
+  assert (Hnodes : forall i, w_nodes w' i = w_nodes w i).
+  { intros i. destruct (N.lt_ge_cases i (w_next w)) as [Hlt|Hge]; [apply Hold; exact Hlt|].
+    destruct (w_nodes w' i) as [a|] eqn:E1; [pose proof (Hal i a E1); lia|].
+    destruct (w_nodes w i) as [b|] eqn:E2; [pose proof (tf_alloc _ HF _ _ E2); lia|reflexivity]. }
+  assert (HSV : SV w w') by (split; [intros i; rewrite Hnodes; reflexivity|rewrite Hm; reflexivity]).
+  split; [eapply Inv04_iv; [apply SV_IV; exact HSV|exact HI]|eapply Inv05_sv; eauto].
+Qed.
+
+Theorem C45_copy h other w r w' :
+  TreeFacts w -> Inv04 w -> Inv05 T w ->
+  Known04 T LATEST w (OpCopy h other) = false -> Known05 w (OpCopy h other) = false ->
+  e_create_copied_sub_element T LATEST h other w = Val (r, w') -> Inv04 w' /\ Inv05 T w'.
+Proof.
+  intros HF HI HI5 HK4 HK5 H. pose proof (tf_closed w HF) as Cw.
+  destruct (copy_source_unchanged T LATEST h other None w r w' Cw H) as (Cw' & _).
+  cbn [Refs.Known05 run_op] in HK5. unfold welem, wbind in HK5. rewrite H in HK5.
+  destruct r as [c|e].
+  2:{ apply negb_false_iff, N.eqb_eq in HK5. eapply copy_failed_same; eauto. exact (gnf_e_create_copied T LATEST h other w e w' H). }
+  cbn in HK5. apply negb_false_iff in HK5.
+  cbn [Known04] in HK4. apply orb_false_iff in HK4 as (Hfront & _).
+  unfold e_create_copied_sub_element in H. destruct (h =? other); [discriminate H|].
+  wk H. wk H. unfold raw_create_copied_sub_element in H.
+  wk H. match goal with E : get_node h w = _ |- _ => apply get_node_inv in E as (n & Hn & Q & _); injection Q as -> end.
+  wk H. match goal with E : get_node other w = _ |- _ => apply get_node_inv in E as (o & Ho & Q & _); injection Q as -> end.
+  wk H. match goal with E : calc_element_insert_range T n _ _ w = Val (OK ?rr, _) |- _ => destruct rr as (rs, re); rename E into Ecalc end.
+  match goal with E : model_of h w = Val (OK ?mm, w) |- _ => rename E into Emod; rename mm into m end.
+  match goal with E : min_version LATEST h w = Val (OK ?vv, w) |- _ => rename E into Emin; rename vv into v end.
+  eapply (copy_inner_inv h other re m v w c w' n); eauto.
+  - apply model_of_mreach; assumption.
+  - eapply calc_range_mode; eauto.
+  - intros Hre. unfold nm_of in *. rewrite Ho in *. eapply front_false_end; eauto.
+Qed.
+
+Theorem C45_copy_at h other pos w r w' :
+  TreeFacts w -> Inv04 w -> Inv05 T w ->
+  Known04 T LATEST w (OpCopyAt h other pos) = false -> Known05 w (OpCopyAt h other pos) = false ->
+  e_create_copied_sub_element_at T LATEST h other pos w = Val (r, w') -> Inv04 w' /\ Inv05 T w'.
+Proof.
+  intros HF HI HI5 HK4 HK5 H. pose proof (tf_closed w HF) as Cw.
+  destruct (copy_source_unchanged T LATEST h other (Some pos) w r w' Cw H) as (Cw' & _).
+  cbn [Refs.Known05 run_op] in HK5. unfold welem, wbind in HK5. rewrite H in HK5.
+  destruct r as [c|e].
+  2:{ apply negb_false_iff, N.eqb_eq in HK5. eapply copy_failed_same; eauto. exact (gnf_e_create_copied_at T LATEST h other pos w e w' H). }
+  cbn in HK5. apply negb_false_iff in HK5.
+  cbn [Known04] in HK4. apply orb_false_iff in HK4 as (Hfront & _).
+  unfold e_create_copied_sub_element_at in H. destruct (h =? other); [discriminate H|].
+  wk H. wk H. unfold raw_create_copied_sub_element_at in H.
+  wk H. match goal with E : get_node h w = _ |- _ => apply get_node_inv in E as (n & Hn & Q & _); injection Q as -> end.
+  wk H. match goal with E : get_node other w = _ |- _ => apply get_node_inv in E as (o & Ho & Q & _); injection Q as -> end.
+  wk H. match goal with E : calc_element_insert_range T n _ _ w = Val (OK ?rr, _) |- _ => destruct rr as (rs, re); rename E into Ecalc end.
+  destruct ((rs <=? pos) && (pos <=? re)); [|discriminate H].
+  match goal with E : model_of h w = Val (OK ?mm, w) |- _ => rename E into Emod; rename mm into m end.
+  match goal with E : min_version LATEST h w = Val (OK ?vv, w) |- _ => rename E into Emin; rename vv into v end.
+  eapply (copy_inner_inv h other pos m v w c w' n); eauto.
+  - apply model_of_mreach; assumption.
+  - eapply calc_range_mode; eauto.
+  - intros Hre. unfold nm_of in *. rewrite Ho in *. eapply front_false_at; eauto.
 Qed.
 
 End Copy.
